@@ -1,5 +1,6 @@
 import PharmpyModel.C04.Theta
 import PharmpyModel.C04.OmegaDiag
+import PharmpyModel.C04.OmegaBlock
 import PharmpyModel.C04.ThetaShape
 /-
   Helper lemmas for C04: how the helpers of theta_record.py act on a list of
@@ -1421,5 +1422,209 @@ theorem recShapeOK_sound (r : List RNode) (h : recShapeOK r = true) : RecShape r
       rcases hc with rfl | hc
       · exact shapeOK_sound _ h.1
       · exact ih h.2 cs hc
+
+/-! ### BLOCK records: the FIX flag -/
+
+def itemNoFix : DNode → Bool
+  | .item cs => !hasK .fix cs
+  | _ => true
+
+/-- no `omega` subtree carries a FIX -/
+def itemsNoFix (r : List DNode) : Bool := r.all itemNoFix
+
+def isBlockTok : DNode → Bool
+  | .tok t => t.k == .block
+  | _ => false
+
+def hasBlock (r : List DNode) : Bool := r.any isBlockTok
+
+theorem blockFixAux_noItemFix (f : Bool) (r : List DNode) (h : itemsNoFix r = true) :
+    blockFixAux f r = .ok f := by
+  induction r generalizing f with
+  | nil => rfl
+  | cons x r ih =>
+    simp only [itemsNoFix, List.all_cons, Bool.and_eq_true] at h
+    cases x with
+    | item cs =>
+      have : hasK .fix cs = false := by simpa [itemNoFix] using h.1
+      simp [blockFixAux, this, ih f h.2]
+    | tok t => simp [blockFixAux, ih f h.2]
+    | diagonal t => simp [blockFixAux, ih f h.2]
+
+theorem blockFixAux_false (f : Bool) (r : List DNode) (h : blockFixAux f r = .ok false) :
+    f = false ∧ itemsNoFix r = true := by
+  induction r generalizing f with
+  | nil => simp [blockFixAux] at h; exact ⟨h, rfl⟩
+  | cons x r ih =>
+    cases x with
+    | item cs =>
+      by_cases hc : hasK .fix cs = true
+      · cases f
+        · simp [blockFixAux, hc] at h
+          have := (ih true h).1
+          simp at this
+        · simp [blockFixAux, hc] at h
+      · simp only [Bool.not_eq_true] at hc
+        simp [blockFixAux, hc] at h
+        obtain ⟨h1, h2⟩ := ih f h
+        refine ⟨h1, ?_⟩
+        simp only [itemsNoFix, List.all_cons, Bool.and_eq_true]
+        exact ⟨by simp [itemNoFix, hc], h2⟩
+    | tok t =>
+      simp [blockFixAux] at h
+      obtain ⟨h1, h2⟩ := ih f h
+      refine ⟨h1, ?_⟩
+      simp only [itemsNoFix, List.all_cons, Bool.and_eq_true]
+      exact ⟨rfl, h2⟩
+    | diagonal t =>
+      simp [blockFixAux] at h
+      obtain ⟨h1, h2⟩ := ih f h
+      refine ⟨h1, ?_⟩
+      simp only [itemsNoFix, List.all_cons, Bool.and_eq_true]
+      exact ⟨rfl, h2⟩
+
+theorem rmFixRootAux_noRootFix (acc r : List DNode) (ha : rootHasFix acc = false) :
+    rootHasFix (rmFixRootAux acc r) = false := by
+  induction r generalizing acc with
+  | nil => simpa [rmFixRootAux, rootHasFix] using ha
+  | cons x r ih =>
+    by_cases hx : isRootFix x = true
+    · cases acc with
+      | nil => simpa [rmFixRootAux, hx] using ih [] rfl
+      | cons a acc =>
+        have ha' : rootHasFix acc = false := by
+          simp [rootHasFix] at ha ⊢; exact ha.2
+        by_cases hw : isRootWs a = true
+        · simpa [rmFixRootAux, hx, hw] using ih acc ha'
+        · simpa [rmFixRootAux, hx, hw] using ih (a :: acc) ha
+    · have : rootHasFix (x :: acc) = false := by
+        simp [rootHasFix] at ha ⊢
+        exact ⟨by simpa using hx, ha⟩
+      simpa [rmFixRootAux, hx] using ih (x :: acc) this
+
+theorem rootHasFix_map_inside (l : List DNode) : rootHasFix (l.map rmFixInside) = rootHasFix l := by
+  induction l with
+  | nil => rfl
+  | cons x l ih =>
+    cases x <;> simp [rootHasFix, rmFixInside, isRootFix] at ih ⊢ <;> simp [ih]
+
+theorem itemsNoFix_map_inside (l : List DNode) : itemsNoFix (l.map rmFixInside) = true := by
+  induction l with
+  | nil => rfl
+  | cons x l ih =>
+    cases x <;> simp [itemsNoFix, rmFixInside, itemNoFix, rmFix_noFix] at ih ⊢ <;> exact ih
+
+theorem rmFixRec_blockFix (r : List DNode) : blockFix (rmFixRec r) = .ok false := by
+  unfold blockFix rmFixRec
+  rw [rootHasFix_map_inside, rmFixRootAux_noRootFix [] r rfl]
+  exact blockFixAux_noItemFix false _ (itemsNoFix_map_inside _)
+
+theorem insertAfterBlock_rootFix (r : List DNode) (h : hasBlock r = true) :
+    rootHasFix (insertAfterBlock [.tok tokWs, .tok tokFix] r) = true := by
+  induction r with
+  | nil => simp [hasBlock] at h
+  | cons x r ih =>
+    cases x with
+    | tok t =>
+      by_cases hb : t.k = .block
+      · simp [insertAfterBlock, hb, rootHasFix, isRootFix]
+      · have : hasBlock r = true := by simpa [hasBlock, isBlockTok, hb] using h
+        simp [insertAfterBlock, hb, rootHasFix, isRootFix] at ih ⊢
+        exact Or.inr (ih this)
+    | item cs =>
+      have : hasBlock r = true := by simpa [hasBlock, isBlockTok] using h
+      simp [insertAfterBlock, rootHasFix, isRootFix] at ih ⊢
+      exact ih this
+    | diagonal t =>
+      have : hasBlock r = true := by simpa [hasBlock, isBlockTok] using h
+      simp [insertAfterBlock, rootHasFix, isRootFix] at ih ⊢
+      exact ih this
+
+theorem insertAfterBlock_items (r : List DNode) :
+    itemsNoFix (insertAfterBlock [.tok tokWs, .tok tokFix] r) = itemsNoFix r := by
+  induction r with
+  | nil => rfl
+  | cons x r ih =>
+    cases x with
+    | tok t =>
+      by_cases hb : t.k = .block <;> simp [insertAfterBlock, hb, itemsNoFix, itemNoFix] at ih ⊢ <;> exact ih
+    | item cs => simp [insertAfterBlock, itemsNoFix, itemNoFix] at ih ⊢; rw [ih]
+    | diagonal t => simp [insertAfterBlock, itemsNoFix, itemNoFix] at ih ⊢; exact ih
+
+/-- the FIX handling at the end of the BLOCK branch reads back, wherever the FIX was written -/
+theorem setBlockFix_reads_back (r : List DNode) (f b : Bool) (h : blockFix r = .ok f) (hb : hasBlock r = true) :
+    blockFix (setBlockFix f r b) = .ok b := by
+  unfold setBlockFix
+  by_cases hbf : b = f
+  · simp [hbf, h]
+  · rw [if_pos hbf]
+    cases b with
+    | true =>
+      have hf : f = false := by cases f <;> simp_all
+      subst hf
+      obtain ⟨h1, h2⟩ := blockFixAux_false _ _ h
+      simp only [↓reduceIte]
+      unfold blockFix
+      rw [insertAfterBlock_rootFix r hb]
+      exact blockFixAux_noItemFix true _ (by rw [insertAfterBlock_items]; exact h2)
+    | false =>
+      simp only [Bool.false_eq_true, ↓reduceIte]
+      exact rmFixRec_blockFix r
+
+/-- no `(v)xn` node of the block has to be split: its n new values are equal -/
+def noSplitB : List DNode → List OParam → Bool
+  | [], _ => true
+  | .item cs :: r, vs =>
+    (match vs.take (multiple cs) with
+     | [] => true
+     | v :: rest => rest.all (fun q => q.raw == v.raw)) && noSplitB r (vs.drop (multiple cs))
+  | _ :: r, vs => noSplitB r vs
+
+theorem setRaw_hasFix (cs : List TNode) (v : OParam) : hasK .fix (setRaw cs v) = hasK .fix cs := by
+  simp [hasK_eq_isSome, setRaw_findK .fix (by simp) cs v]
+
+theorem updBlockVals_flags (r : List DNode) (vs : List OParam) (hn : noSplitB r vs = true) :
+    rootHasFix (updBlockVals r vs) = rootHasFix r ∧ hasBlock (updBlockVals r vs) = hasBlock r ∧
+      ∀ f, blockFixAux f (updBlockVals r vs) = blockFixAux f r := by
+  induction r generalizing vs with
+  | nil => exact ⟨rfl, rfl, fun _ => rfl⟩
+  | cons x r ih =>
+    cases x with
+    | tok t =>
+      obtain ⟨h1, h2, h3⟩ := ih vs (by simpa [noSplitB] using hn)
+      refine ⟨?_, ?_, ?_⟩
+      · simp [updBlockVals, rootHasFix] at h1 ⊢; rw [h1]
+      · simp [updBlockVals, hasBlock] at h2 ⊢; rw [h2]
+      · intro f; simp [updBlockVals, blockFixAux, h3]
+    | diagonal t =>
+      obtain ⟨h1, h2, h3⟩ := ih vs (by simpa [noSplitB] using hn)
+      refine ⟨?_, ?_, ?_⟩
+      · simp [updBlockVals, rootHasFix] at h1 ⊢; rw [h1]
+      · simp [updBlockVals, hasBlock] at h2 ⊢; rw [h2]
+      · intro f; simp [updBlockVals, blockFixAux, h3]
+    | item cs =>
+      simp only [noSplitB, Bool.and_eq_true] at hn
+      obtain ⟨h1, h2, h3⟩ := ih (vs.drop (multiple cs)) hn.2
+      have hitem : ∃ cs', updOmegaItem cs (vs.take (multiple cs)) = [.item cs'] ∧ hasK .fix cs' = hasK .fix cs := by
+        unfold updOmegaItem
+        cases ht : vs.take (multiple cs) with
+        | nil => exact ⟨cs, rfl, rfl⟩
+        | cons v rest =>
+          have hall : (v :: rest).all (fun q => q.raw == v.raw) = true := by
+            have := hn.1
+            rw [ht] at this
+            simpa using this
+          simp only [hall, ↓reduceIte]
+          exact ⟨_, rfl, setRaw_hasFix cs v⟩
+      obtain ⟨cs', e, hf⟩ := hitem
+      refine ⟨?_, ?_, ?_⟩
+      · simp [updBlockVals, e, rootHasFix, isRootFix] at h1 ⊢; exact h1
+      · simp [updBlockVals, e, hasBlock, isBlockTok] at h2 ⊢; exact h2
+      · intro f
+        simp only [updBlockVals, e, List.singleton_append, blockFixAux, hf]
+        cases hasK .fix cs <;> cases f <;> simp [h3]
+
+
+def nBlock : TNode := { k := .block, rule := "block", text := "BLOCK(2)" }
 
 end Pharmpy.C04
